@@ -118,7 +118,9 @@ int main(void)
 	CHECK(attr_path_equal_str(p, in, root), "C19: equal_str agrees with parse + equal");
 	attr_path_destroy(q);
 	ut_free(str);
-	WITNESS(refn >= 2 && sl < strlen(in), "index with a leading zero canonicalised");
+#if NSTR >= 5 || !ROOT
+	WITNESS(sl < strlen(in), "index with a leading zero canonicalised");
+#endif
 #endif
 	attr_path_destroy(p);
 	WITNESS(refn == ATTR_PATH_COMP_MAX || refn == NSTR / 2, "deepest path within the bound accepted");
